@@ -7,7 +7,8 @@ From GoImap.Base Require Import Bytes.
 Open Scope N_scope.
 
 Inductive ckind :=
-| KLogin | KSelect (name : N) | KUnselect | KLogout | KExpunge | KPlain.   (* KPlain: NOOP, STATUS, LIST, FETCH, SEARCH, ... *)
+| KLogin | KSelect (name : N) | KUnselect | KLogout | KExpunge | KPlain    (* KPlain: NOOP, STATUS, FETCH, ... *)
+| KList | KSearch.                     (* commands that collect LIST / SEARCH data *)
 
 (* connection state: 0 none, 1 not authenticated, 2 authenticated, 3 selected, 4 logout *)
 Definition S_NONE := 0. Definition S_NOTAUTH := 1. Definition S_AUTH := 2.
@@ -39,6 +40,8 @@ Inductive cev :=
 | EvPermFlags (fl : list N)
 | EvClosed                            (* untagged OK [CLOSED] *)
 | EvOther                             (* any other untagged data: no effect on the mirrored state *)
+| EvListData (n : N)                  (* untagged LIST naming mailbox n *)
+| EvSearchData (l : list N)           (* untagged SEARCH with these numbers *)
 | EvConnLost.                         (* EOF, read/write error, timeout, Close() *)
 
 Definition init_client : client := mkC S_NONE None [] 0 [] false.
@@ -154,7 +157,48 @@ Definition step (c : client) (e : cev) : client :=
       end
   | EvClosed => set_state c S_AUTH
   | EvOther => c
+  | EvListData _ => c
+  | EvSearchData _ => c
   | EvConnLost => close_with_error c
   end.
 
 Definition run (evs : list cev) : client := fold_left step evs init_client.
+
+(* ---- delivery of data responses (handleList / handleSearch / handleExpunge: the first
+   pending command of the matching type, findPendingCmdByType / findPendingCmdFunc) ---- *)
+Definition is_list (p : pcmd) : bool := match p_kind p with KList => true | _ => false end.
+Definition is_search (p : pcmd) : bool := match p_kind p with KSearch => true | _ => false end.
+
+Definition first_tag (f : pcmd -> bool) (l : list pcmd) : option N :=
+  match find f l with Some p => Some (p_tag p) | None => None end.
+
+(* which pending command collects which datum of event e in state c: (tag, datum) *)
+Definition wants (e : cev) : option ((pcmd -> bool) * list N) :=
+  match e with
+  | EvListData n => Some (is_list, [n])
+  | EvSearchData l => Some (is_search, l)
+  | EvExpunge n => Some (is_expunge, [n])
+  | _ => None
+  end.
+
+Definition route (c : client) (e : cev) : list (N * N) :=
+  if c_closed c then [] else
+  match wants e with
+  | Some (f, data) =>
+      match first_tag f (c_pending c) with
+      | Some t => map (fun n => (t, n)) data
+      | None => []                      (* nobody asked: unilateral data handler *)
+      end
+  | None => []
+  end.
+
+Fixpoint deliveries_from (c : client) (evs : list cev) : list (N * N) :=
+  match evs with
+  | [] => []
+  | e :: r => route c e ++ deliveries_from (step c e) r
+  end.
+Definition deliveries (evs : list cev) : list (N * N) := deliveries_from init_client evs.
+
+(* the data collected by the command with tag t, in arrival order *)
+Definition collected (evs : list cev) (t : N) : list N :=
+  map snd (filter (fun d => fst d =? t) (deliveries evs)).
